@@ -244,7 +244,9 @@ thread_local! {
 
 fn run_script(sc: &Script) -> Result<(Vec<Obs>, f64), String> {
     let mut o = ServerOpts::new("C15", &sc.name);
-    o.tenants = vec![TenantSpec::new("acme")];
+    // "aaa" sorts first and takes tenant index 0: the driven tenant "acme" has a NON-ZERO index, so that
+    // the high word of its global ids is not all zeros (an id-range check that only holds for index 0 shows)
+    o.tenants = vec![TenantSpec::new("aaa"), TenantSpec::new("acme")];
     o.dimension = sc.dim;
     o.distance = sc.metric.clone();
     let mut s = Server::start(o)?;
